@@ -371,7 +371,8 @@ func rulesC07(r *Run) {
 
 	r.Kind("R3", "K2")
 	ruleRunChecksOnce(r, "R3")
-	r.Expect("R3", 3)
+	ruleRunStartsFromEmptyAttempts(r, "R3")
+	r.Expect("R3", 4)
 
 	r.Kind("R4", "K1")
 	m := planMachine(r, "R4")
@@ -3207,4 +3208,132 @@ func ruleRunnerStartSilentStop(r *Run, rule string) {
 		return
 	}
 	r.Check(rule, "Runner.Start:silent-stop-only-for-finished-actions", bpos, bad == "", "%s", orOK(bad, "stops silently only for Completed/Failed"))
+}
+
+// ruleRunStartsFromEmptyAttempts (blind spot of the first mutation sweep, closed in session 4): a check group is run many
+// times — its ContChecks for the whole life of the scope — and every run goes through Runner.exec, whose only bound is
+// `len(Attempts) > Retries`. The attempts recorded by the previous run therefore have to be gone before the next one starts:
+// otherwise the (Retries+2)-th run of a continuous check is refused with a permanent error although its plugin never failed,
+// the scope is failed for a check that passed, and the attempts of one run are reported as those of another. On every path of
+// runChecksOnce that reaches runActionsParallel, every iteration of a loop over the group's actions that precedes the call
+// empties the element's Attempts, and such a loop exists (in place, in resetActions, or in any helper: the events are inlined).
+func ruleRunStartsFromEmptyAttempts(r *Run, rule string) {
+	fn := r.fnByKey(rule, smKey("runChecksOnce"))
+	if fn == nil {
+		return
+	}
+	fl, paths, ok := r.flowPaths(rule, fn)
+	if !ok {
+		return
+	}
+	info := fl.Info
+	empties := func(e ast.Expr) bool {
+		e = ast.Unparen(e)
+		if ValueKey(info, e) == "nil" {
+			return true
+		}
+		switch x := e.(type) {
+		case *ast.CompositeLit:
+			return len(x.Elts) == 0
+		case *ast.SliceExpr:
+			return x.Low == nil && x.High != nil && ValueKey(info, x.High) == "0" || isZeroLit(x.High)
+		case *ast.CallExpr:
+			if id, ok := x.Fun.(*ast.Ident); ok && id.Name == "make" && len(x.Args) >= 2 {
+				return isZeroLit(x.Args[1])
+			}
+		}
+		return false
+	}
+	bad := ""
+	var bpos token.Pos = fn.Decl.Pos()
+	n, withLoop := 0, 0
+	for i := range paths {
+		p := &paths[i]
+		if p.Exit != ExitReturn {
+			continue
+		}
+		hook, ci := false, -1
+		for j, e := range p.Ev {
+			if Establishes(info, e, fieldMatcher(info, "", "testChecksRunner"), "nil", false) {
+				hook = true
+			}
+			if ci < 0 && IsCall(e, smKey("runActionsParallel")) {
+				ci = j
+			}
+		}
+		if hook || ci < 0 {
+			continue
+		}
+		n++
+		// iterations of loops over []*workflow.Action before the call
+		type iter struct {
+			rs      *ast.RangeStmt
+			cleared bool
+			pos     token.Pos
+		}
+		var its []iter
+		cur := map[*ast.RangeStmt]int{}
+		for j := 0; j < ci; j++ {
+			e := p.Ev[j]
+			if e.Kind == EvRange {
+				rs, _ := e.Clause.(*ast.RangeStmt)
+				if rs == nil {
+					continue
+				}
+				if !e.Taken {
+					delete(cur, rs)
+					continue
+				}
+				if tv, ok := info.Types[rs.X]; ok && isSliceOf(tv.Type, "workflow.Action") {
+					its = append(its, iter{rs: rs, pos: e.Pos})
+					cur[rs] = len(its) - 1
+				}
+				continue
+			}
+			if e.Kind != EvAssign || len(e.Lhs) != len(e.Rhs) {
+				continue
+			}
+			for k, l := range e.Lhs {
+				base, m := FieldPath(info, l, "", "Attempts")
+				if !m || !empties(e.Rhs[k]) {
+					continue
+				}
+				for rs, idx := range cur {
+					if IsLoopElem(info, rs, base) {
+						its[idx].cleared = true
+					}
+				}
+			}
+		}
+		if len(its) > 0 {
+			withLoop++
+		}
+		for _, it := range its {
+			if !it.cleared && bad == "" {
+				bad, bpos = "on a path of runChecksOnce (exit guard "+ExitGuardKey(fl, p)+") an action of the group keeps the attempts of its previous run when runActionsParallel starts the next one: Runner.exec counts them against Retries, so the run after the "+
+					"(Retries+1)-th is refused with a permanent error although the plugin never failed", it.pos
+			}
+		}
+	}
+	if n == 0 {
+		r.Unresolved(rule, "runChecksOnce path that reaches runActionsParallel")
+		return
+	}
+	if withLoop == 0 && bad == "" {
+		bad = "no path of runChecksOnce empties the Attempts of the group's actions before runActionsParallel: every run of a check group is counted against the Retries of the runs before it"
+	}
+	r.Check(rule, "runChecksOnce:run-starts-from-empty-attempts", bpos, bad == "", "%s", orOK(bad, "every action's Attempts are emptied before the group is run"))
+}
+
+func isZeroLit(e ast.Expr) bool {
+	if e == nil {
+		return false
+	}
+	bl, ok := ast.Unparen(e).(*ast.BasicLit)
+	return ok && bl.Value == "0"
+}
+
+func isSliceOf(t types.Type, elem string) bool {
+	sl, ok := t.Underlying().(*types.Slice)
+	return ok && ShortType(sl.Elem()) == elem
 }
